@@ -24,7 +24,7 @@ descriptor quoting grammar itself (C13, R81).
 from ..core import Finding, RuleResult
 from ..facts import AnalysisBroken
 
-PROPS = ("C14",)
+PROPS = ("C14", "C07")
 
 # libyaml's public enumerations (yaml.h; fixed API)
 STYLES = {0: "YAML_ANY_SCALAR_STYLE", 1: "YAML_PLAIN_SCALAR_STYLE", 2: "YAML_SINGLE_QUOTED_SCALAR_STYLE",
